@@ -238,14 +238,12 @@ func c09Property(t *rapid.T) {
 		switch {
 		case na != nil && nb != nil:
 			checkPrecedence(t, "Union", n, nb, na)
+		// a node of one operand only: the same comparison as for shared nodes, against an empty partner (lists as sets,
+		// a present-but-all-zero date may come out as no date)
 		case na != nil:
-			if hx.RefKey(n, false) != hx.RefKey(na, false) {
-				t.Fatalf("Union changed node %q present only in A: %s vs %s", n.Id, hx.RefKey(n, false), hx.RefKey(na, false))
-			}
+			checkPrecedence(t, "Union (node present only in A)", n, na, &sbom.Node{Id: n.Id, Type: na.Type})
 		case nb != nil:
-			if hx.RefKey(n, false) != hx.RefKey(nb, false) {
-				t.Fatalf("Union changed node %q present only in B: %s vs %s", n.Id, hx.RefKey(n, false), hx.RefKey(nb, false))
-			}
+			checkPrecedence(t, "Union (node present only in B)", n, nb, &sbom.Node{Id: n.Id, Type: nb.Type})
 		}
 	}
 
@@ -264,13 +262,9 @@ func c09Property(t *rapid.T) {
 		case na != nil && nb != nil:
 			checkPrecedence(t, "Add", n, na, nb)
 		case na != nil:
-			if hx.RefKey(n, false) != hx.RefKey(na, false) {
-				t.Fatalf("Add changed node %q present only in the receiver", n.Id)
-			}
+			checkPrecedence(t, "Add (node present only in the receiver)", n, na, &sbom.Node{Id: n.Id, Type: na.Type})
 		case nb != nil:
-			if hx.RefKey(n, false) != hx.RefKey(nb, false) {
-				t.Fatalf("Add changed node %q present only in the argument", n.Id)
-			}
+			checkPrecedence(t, "Add (node present only in the argument)", n, nb, &sbom.Node{Id: n.Id, Type: nb.Type})
 		}
 	}
 }
